@@ -139,11 +139,13 @@ def setAt {α : Type} : List α → Nat → α → List α
   | _ :: xs, 0, a => a :: xs
   | x :: xs, i + 1, a => x :: setAt xs i a
 
-def heldRefs (held : List (Rec × Nat)) (rid : Nat) : Nat :=
+/-- `Record::refs()` of a record (0 if no handle is outstanding). -/
+def heldCnt (held : List (Rec × Nat)) (r : Rec) : Nat :=
   match held with
   | [] => 0
-  | (r, n) :: hs => if r.id = rid then n else heldRefs hs rid
+  | (x, n) :: hs => if x = r then n else heldCnt hs r
 
+/-- The held record with a given id (handles are named by record id in the operation language). -/
 def heldFind (held : List (Rec × Nat)) (rid : Nat) : Option Rec :=
   match held with
   | [] => none
@@ -153,13 +155,13 @@ def heldFind (held : List (Rec × Nat)) (rid : Nat) : Option Rec :=
 def heldInc (held : List (Rec × Nat)) (r : Rec) : List (Rec × Nat) :=
   match held with
   | [] => [(r, 1)]
-  | (x, n) :: hs => if x.id = r.id then (x, n + 1) :: hs else (x, n) :: heldInc hs r
+  | (x, n) :: hs => if x = r then (x, n + 1) :: hs else (x, n) :: heldInc hs r
 
 /-- `Record::dec_refs(1)`; an entry reaching 0 disappears. -/
-def heldDec (held : List (Rec × Nat)) (rid : Nat) : List (Rec × Nat) :=
+def heldDec (held : List (Rec × Nat)) (r : Rec) : List (Rec × Nat) :=
   match held with
   | [] => []
-  | (x, n) :: hs => if x.id = rid then (if n ≤ 1 then hs else (x, n - 1) :: hs) else (x, n) :: heldDec hs rid
+  | (x, n) :: hs => if x = r then (if n ≤ 1 then hs else (x, n - 1) :: hs) else (x, n) :: heldDec hs r
 
 section
 variable {σ : Type} (P : Policy σ) (cfg : Cfg)
@@ -206,7 +208,7 @@ def Cache.step (c : Cache σ) : Op → Cache σ × Out
       | some r =>
         -- lookup + acquire, then the temporary handle is dropped again (refs back; release if last)
         let s1 := { s with ev := P.acquire s.ev r }
-        let s2 := if heldRefs c.held r.id = 0 then { s1 with ev := P.release s1.ev r } else s1
+        let s2 := if heldCnt c.held r = 0 then { s1 with ev := P.release s1.ev r } else s1
         ({ c with shards := setAt c.shards i s2 }, { ret := .bool true })
   | .contains key =>
     let i := cfg.shardOf (cfg.H key)
@@ -231,8 +233,8 @@ def Cache.step (c : Cache σ) : Op → Cache σ × Out
     match heldFind c.held rid with
     | none => (c, { ret := .bad })
     | some r =>
-      if heldRefs c.held rid ≤ 1 then
-        let held' := heldDec c.held rid
+      if heldCnt c.held r ≤ 1 then
+        let held' := heldDec c.held r
         if r.phantom then
           ({ c with held := held' }, { ret := .unit, leaves := [(.evict, r)], piped := [r] })
         else
@@ -242,7 +244,7 @@ def Cache.step (c : Cache σ) : Op → Cache σ × Out
           | some s =>
             ({ c with shards := setAt c.shards i { s with ev := P.release s.ev r }, held := held' },
              { ret := .unit })
-      else ({ c with held := heldDec c.held rid }, { ret := .unit })
+      else ({ c with held := heldDec c.held r }, { ret := .unit })
   | .clear =>
     let (ss, leaves, _) := mapShards (fun _ s =>
       ({ s with index := [], ev := P.clear s.ev, usage := 0, entries := 0 },
